@@ -86,7 +86,11 @@ func main() {
 		fmt.Printf("%-34s %-12s paths=%d done=%d pruned=%d queries=%d (unknown=%d) solver=%.1fs wall=%.1fs\n",
 			r.Name, r.Verdict, r.Paths, r.PathsDone, r.PathsAssume, r.Queries, r.Unknown, r.SolverS, r.WallS)
 		for _, s := range r.Inconclusive {
-			fmt.Printf("    inconclusive: %s\n", firstLine(s))
+			if strings.Contains(s, "engine bug") {
+				fmt.Printf("    inconclusive: %s\n", s)
+			} else {
+				fmt.Printf("    inconclusive: %s\n", firstLine(s))
+			}
 		}
 	}
 	// violations: known findings vs new
